@@ -434,6 +434,7 @@ func runC16(p *P, r *R) {
 		r.ob("R16.4", "Listener.checkHotRestart: the restart is declared done only when every acknowledgement arrived", p.pos(chk.Pos()), ok, true, "")
 	}
 	c16SessionNames(p, r)
+	c16FreshBookkeeping(p, r)
 	// R16.10 a session dying while the restart events are sent must not wedge the listener: no mutex is re-acquired
 	// through the shutdown callback while the restart loop holds it, no unbounded wait under a mutex (shared with C11)
 	borrow(p, r, "C11", runC11, map[string]string{"R11.11": "R16.10", "R11.12": "R16.10", "R11.13": "R16.10"}, nil)
@@ -706,4 +707,41 @@ func c16SessionNames(p *P, r *R) {
 		}
 	}
 	r.count("R16.9", "queue paths derived from the share-memory prefix", n, 1)
+}
+
+// c16FreshBookkeeping (R16.11): reservePools is the record of the restart in progress ("this session was handed over
+// already"). The first event of a new restart clears what the previous restart left there; the record must not be
+// consulted before that: in the manager's restart handler no read of reservePools can be followed by the store that
+// resets it. Otherwise, after one successful restart, every event of the next one is taken for a repeat and dropped.
+func c16FreshBookkeeping(p *P, r *R) {
+	mh := p.fn("handleSessionManagerHotRestart")
+	if mh == nil {
+		r.fail("R16.11", "anchor handleSessionManagerHotRestart", "", "not found")
+		return
+	}
+	var resets, reads []ssa.Instruction
+	allInstrs(mh, func(in ssa.Instruction) {
+		switch x := in.(type) {
+		case *ssa.Store:
+			if wordOf(x.Addr) == "SessionManager.reservePools" && isNilConst(x.Val) {
+				resets = append(resets, in)
+			}
+		case *ssa.Lookup:
+			if isLoadOf(x.X, "SessionManager.reservePools") {
+				reads = append(reads, in)
+			}
+		}
+	})
+	r.count("R16.11", "resets of reservePools in the restart handler", len(resets), 1)
+	r.count("R16.11", "lookups in reservePools in the restart handler", len(reads), 1)
+	ok := true
+	for _, rd := range reads {
+		for _, rs := range resets {
+			if p.reaches(rd, rs, nil) {
+				ok = false
+			}
+		}
+	}
+	r.ob("R16.11", "handleSessionManagerHotRestart: the hand-over record is cleared for a new restart before it is consulted", p.pos(mh.Pos()), ok, true,
+		"a repeat test made against the previous restart's record drops every event of the next restart")
 }
